@@ -540,7 +540,7 @@ def gen_case(rng, cs, tier):
 
 def run_shard(rep, tier, seed, shard, nshards):
     dl = Deadline(budget(tier, 45, 500))
-    for k in range(budget(tier, 600, 4000)):
+    for k in range(budget(tier, 600, 12000)):
         if dl.expired():
             break
         cs = f"{seed}/C13/{shard}/{k}"
